@@ -144,7 +144,8 @@ LiveStep ==
             LET have == Cardinality({x \in DOMAIN hl : hl[x] # "lost"}) * ev.machprocs
                 just == Min(NeedLedger, ev.maxp) - have - pend      \* procs still missing
                 okStart == just > 0 /\ ev.nmach * ev.machprocs < just + ev.machprocs /\ ev.nmach <= 10
-            IN /\ bad' = IF okStart THEN bad ELSE Append(bad, Fail(r, ev, "NoMoreMachinesThanJustified"))
+            IN /\ bad' = (IF okStart THEN bad ELSE Append(bad, Fail(r, ev, "NoMoreMachinesThanJustified")))
+                          \o (IF ev.pending = pend + ev.nmach * ev.machprocs THEN <<>> ELSE <<Fail(r, ev, "PendingCountsOnlyMachinesStillStarting")>>)
                /\ pend' = pend + ev.nmach * ev.machprocs
                /\ UNCHANGED <<load, max, hl, q, out, started, peak>>
        [] e = "MgrStarted" ->
@@ -153,8 +154,12 @@ LiveStep ==
                           IF x \in DOMAIN max THEN max[x] ELSE ev.maxes[CHOOSE j \in DOMAIN ev.machines : ev.machines[j] = x]]
             /\ hl' = [x \in (DOMAIN hl) \cup RangeSeq(ev.machines) |-> IF x \in DOMAIN hl THEN hl[x] ELSE "ok"]
             /\ started' = started \cup RangeSeq(ev.machines)
-            /\ pend' = ev.pending
-            /\ bad' = IF ev.pending >= 0 THEN bad ELSE Append(bad, Fail(r, ev, "PendingNonNegative"))
+            \* a batch of machines has finished starting: whether they came up or not, none of them is
+            \* pending any longer (ledger: pend counts the procs of machines still being started)
+            /\ LET exp == pend - (Len(ev.machines) + ev.nfail) * ev.machprocs IN
+               /\ pend' = exp
+               /\ bad' = (IF ev.pending >= 0 THEN bad ELSE Append(bad, Fail(r, ev, "PendingNonNegative")))
+                          \o (IF ev.pending = exp THEN <<>> ELSE <<Fail(r, ev, "PendingCountsOnlyMachinesStillStarting")>>)
             /\ UNCHANGED <<q, out, peak>>
        [] e = "MgrSelect" ->
             \* snapshot: the manager's view must agree with the ledger
